@@ -120,7 +120,7 @@ structure TokWordOk (w : Word) (next : List Char) : Prop where
 
 /-- what follows a printed token: a delimiter that is not `<` or `>` -/
 structure NextOk (next : List Char) : Prop where
-  ends : ∃ x r, next = x :: r ∧ Delim.token.Ends x
+  ends : next = [] ∨ ∃ x r, next = x :: r ∧ Delim.token.Ends x
   noAngle : nextIsAngle next = false
 
 theorem printWord_ne_nil (ctx : Ctx) (d : Delim) (w : List WordUnit) (next : List Char)
@@ -161,11 +161,74 @@ theorem lexToken_word_gen (w : Word) (next : List Char) (hw : TokWordOk w next)
     lexOperator_none y _ (by simpa using hk') hop, hwl']
   simp [parseTildeFront_id w hw.noTilde]
 
+theorem lexWordUnit_eof (ctx : Ctx) (d : Delim) (k : Nat) : lexWordUnit (k + 1) ctx d [] = .none [] := by
+  simp [lexWordUnit, skipLC]
+
+/-- the outermost list of word units at the end of input (inner lists end at `}` / `"`) -/
+theorem wordUnits_eof (ctx : Ctx) (d : Delim) : ∀ (w : List WordUnit) (n : Nat), WordUnits.Ok ctx d w [] →
+    (printWord w).length + 4 ≤ n → lexWordUnits n ctx d (printWord w) = some (w, []) := by
+  intro w
+  induction w with
+  | nil =>
+    intro n _ hf
+    obtain ⟨k, rfl⟩ : ∃ k, n = k + 2 := ⟨n - 2, by simp [printWord] at hf; omega⟩
+    simp [printWord, lexWordUnits, lexWordUnit_eof]
+  | cons u us ih =>
+    intro n h hf
+    obtain ⟨k, rfl⟩ : ∃ k, n = k + 1 := ⟨n - 1, by omega⟩
+    simp only [WordUnits.Ok] at h
+    rw [printWord_cons] at hf ⊢
+    simp only [List.length_append] at hf
+    obtain ⟨y, tl, ey, _, _⟩ := printWordUnit_head ctx d u _ h.1
+    have hpos : 1 ≤ (printWordUnit u).length := by simp [ey]
+    have h1 := (lex_all k).2.2.2.1 ctx d u (printWord us ++ []) h.1 (by omega)
+    have h2 := ih k h.2 (by omega)
+    simp only [List.append_nil] at h1
+    simp only [lexWordUnits, h1, h2]
+
+theorem word_eof (d : Delim) (w : Word) (h : WordUnits.Ok .word d w []) :
+    lexWord d (printWord w) = some (w, []) := by
+  unfold lexWord
+  exact wordUnits_eof .word d w _ h (by omega)
+
+
+theorem lexToken_word_eof (w : Word) (hw : TokWordOk w []) (sp : Bool) :
+    lexToken ((if sp then [' '] else []) ++ printWord w) = some (⟨w, .word (isKeywordWord w)⟩, []) := by
+  have hne := printWord_ne_nil _ _ w _ hw.ok hw.nonempty
+  obtain ⟨y, t, e, hy, hk⟩ := printWord_head_ok .word .token w _ hw.ok hne
+  have hk' := hk []
+  obtain ⟨hop, hbl⟩ := firstOk_token y hy
+  have hyc : y ≠ '#' := by
+    intro e'; apply hw.noComment; simp [e, e']
+  have hwl := word_eof .token w hw.ok
+  have hlen : 2 ≤ ((if sp then [' '] else []) ++ y :: t).length + 1 := by
+    cases sp <;> simp
+  have hin : (if sp then [' '] else []) ++ printWord w = (if sp then [' '] else []) ++ y :: t := by simp [e]
+  have hsb : skipBlanks ((if sp then [' '] else []) ++ y :: t).length ((if sp then [' '] else []) ++ y :: t) = y :: t := by
+    cases sp with
+    | false => simpa using skipBlanks_stop y t (by simpa using hk') hbl _
+    | true =>
+      have := skipBlanks_pre true y t (by simpa using hk') hbl (([' '] ++ y :: t).length) (by simp)
+      simpa using this
+  have hwl' : lexWord .token (y :: t) = some (w, []) := by rw [← hwl, e]
+  have hwe : w.isEmpty = false := by
+    cases w with
+    | nil => exact absurd rfl hw.nonempty
+    | cons _ _ => rfl
+  unfold lexToken
+  simp only []
+  rw [hin, hsb, skipComment_id y _ (by simpa using hk') hyc,
+    lexOperator_none y _ (by simpa using hk') hop, hwl']
+  simp [parseTildeFront_id w hw.noTilde, tokenId, hwe, nextIsAngle, skipLC, isKeywordWord]
+  cases hkw : ((wordLiteral w).map isKeyword).getD false <;> simp
+
 theorem lexToken_word (w : Word) (next : List Char) (hw : TokWordOk w next) (hn : NextOk next)
     (sp : Bool) :
     lexToken ((if sp then [' '] else []) ++ (printWord w ++ next)) =
       some (⟨w, .word (isKeywordWord w)⟩, next) := by
-  rw [lexToken_word_gen w next hw hn.ends sp]
+  rcases hn.ends with rfl | hends
+  · simpa using lexToken_word_eof w hw sp
+  rw [lexToken_word_gen w next hw hends sp]
   have hwe : w.isEmpty = false := by
     cases w with
     | nil => exact absurd rfl hw.nonempty
@@ -601,10 +664,10 @@ def ArrWordsOk : List Word → List Char → Prop
   | w :: v :: ws, next => TokWordOk w (' ' :: (printArrayWords (v :: ws) ++ ')' :: next)) ∧ ArrWordsOk (v :: ws) next
 
 theorem nextOk_rparen (x : List Char) : NextOk (')' :: x) :=
-  ⟨⟨')', x, rfl, ⟨by decide, by decide⟩⟩, by simp [nextIsAngle, skipLC_cons_ne]⟩
+  ⟨Or.inr ⟨')', x, rfl, ⟨by decide, by decide⟩⟩, by simp [nextIsAngle, skipLC_cons_ne]⟩
 
 theorem nextOk_space (x : List Char) : NextOk (' ' :: x) :=
-  ⟨⟨' ', x, rfl, ⟨by decide, by decide⟩⟩, by simp [nextIsAngle, skipLC_cons_ne]⟩
+  ⟨Or.inr ⟨' ', x, rfl, ⟨by decide, by decide⟩⟩, by simp [nextIsAngle, skipLC_cons_ne]⟩
 
 theorem printArrayWords_cons2 (w v : Word) (ws : List Word) :
     printArrayWords (w :: v :: ws) = printWord w ++ ' ' :: printArrayWords (v :: ws) := by
@@ -678,7 +741,7 @@ theorem loop_arrayAssign (n : List Char) (ws : List Word) (next : List Char)
     parseSimpleLoop (fuel + 1) b ((if sp then [' '] else []) ++ (printArrayAssign n ws ++ next)) =
       parseSimpleLoop fuel { b with assigns := b.assigns ++ [⟨n, .array ws⟩] } next := by
   have hn : NextOk ('(' :: (printArrayWords ws ++ ')' :: next)) :=
-    ⟨⟨'(', _, rfl, ⟨by decide, by decide⟩⟩, by simp [nextIsAngle, skipLC_cons_ne]⟩
+    ⟨Or.inr ⟨'(', _, rfl, ⟨by decide, by decide⟩⟩, by simp [nextIsAngle, skipLC_cons_ne]⟩
   have ht := lexToken_word _ _ hw hn sp
   have hr := parseRedir_word _ _ hw hn sp
   rw [printWord_assignWord] at ht hr
@@ -753,10 +816,10 @@ theorem nextOk_after (ps : List Piece) (e : Char) (rest : List Char) (he : TermO
       rcases he with h | h | h | h | h <;> subst h <;> exact ⟨by decide, by decide⟩
     have hA : nextIsAngle (e :: rest) = false := by
       rcases he with h | h | h | h | h <;> subst h <;> simp [nextIsAngle, skipLC_cons_ne]
-    exact ⟨⟨e, rest, by simp [afterPiece, printPieces, joinWith], hE⟩, by
+    exact ⟨Or.inr ⟨e, rest, by simp [afterPiece, printPieces, joinWith], hE⟩, by
       simpa [afterPiece, printPieces, joinWith] using hA⟩
   | cons q qs =>
-    exact ⟨⟨' ', printPieces (q :: qs) ++ e :: rest, by simp [afterPiece], ⟨by decide, by decide⟩⟩, by
+    exact ⟨Or.inr ⟨' ', printPieces (q :: qs) ++ e :: rest, by simp [afterPiece], ⟨by decide, by decide⟩⟩, by
       simp [afterPiece, nextIsAngle, skipLC_cons_ne]⟩
 
 theorem afterPiece_eq (ps : List Piece) (tail : List Char) :
